@@ -89,17 +89,7 @@ func c10Alphabet() []Ev {
 func (c c10) Gen(tier string, seed int64, emit func([]Ev)) {
 	r := rand.New(rand.NewSource(seed))
 	al := c10Alphabet()
-	ops := func(objs []Ev, steps [][2]interface{}) []Ev {
-		var h []Ev
-		for i, s := range steps {
-			e := Ev{"op": s[0], "obj": s[1], "seed": int(r.Int31())}
-			if i == 0 {
-				e["objs"] = objs
-			}
-			h = append(h, e)
-		}
-		return h
-	}
+	ops := func(objs []Ev, steps [][2]interface{}) []Ev { return c10Ops(r, objs, steps) }
 	// bounded-exhaustive: all histories of length <= L over the alphabet (process only), each followed by Open
 	L := 2
 	if tier == "thorough" {
@@ -130,66 +120,90 @@ func (c c10) Gen(tier string, seed int64, emit func([]Ev)) {
 		n = 30000
 	}
 	for i := 0; i < n; i++ {
-		nobj := 3 + r.Intn(8)
-		objs := []Ev{}
-		ptsPool := []uint64{1000, 2000, 3000, 1 << 32, 1<<33 - 1}
-		many := r.Intn(4) == 0     // many distinct times
-		ring := c.ring && i%6 == 5 // more than ten distinct times in one history: the record of received times wraps
-		if ring {
-			many = true
-			nobj = 12 + r.Intn(8)
+		emit(c10History(r, i, c.ring))
+	}
+}
+
+func c10Ops(r *rand.Rand, objs []Ev, steps [][2]interface{}) []Ev {
+	var h []Ev
+	for i, s := range steps {
+		e := Ev{"op": s[0], "obj": s[1], "seed": int(r.Int31())}
+		if i == 0 {
+			e["objs"] = objs
+		}
+		h = append(h, e)
+	}
+	return h
+}
+
+// c10History draws one random tracker history from r (which may be driven by a fuzzer's bytes).
+func c10History(r *rand.Rand, i int, withRing bool) []Ev {
+	nobj := 3 + r.Intn(8)
+	objs := []Ev{}
+	ptsPool := []uint64{1000, 2000, 3000, 1 << 32, 1<<33 - 1}
+	many := r.Intn(4) == 0       // many distinct times
+	ring := withRing && i%6 == 5 // more than ten distinct times in one history: the record of received times wraps
+	if ring {
+		many = true
+		nobj = 12 + r.Intn(8)
+	}
+	for k := 0; k < nobj; k++ {
+		t := c10Types[r.Intn(len(c10Types))]
+		if r.Intn(3) == 0 {
+			t = []int{0x13, 0x14, 0x10, 0x50, 0x40}[r.Intn(5)]
+		}
+		a := absDesc{Type: t, Eid: 1 + r.Intn(2), HasPTS: r.Intn(12) != 0, PTS: ptsPool[r.Intn(len(ptsPool))], SegNum: 1, SegExp: 1 + r.Intn(2)}
+		if many {
+			a.PTS = uint64(1000 * (1 + r.Intn(16)))
+		}
+		if ring && r.Intn(4) != 0 {
+			a.PTS = uint64(1000 * (1 + k)) // mostly distinct times
+		}
+		if t == 0x34 || t == 0x36 {
+			a.HasSub = r.Intn(2) == 0
+			a.SubNum, a.SubExp = 1, 1+r.Intn(2)
+		}
+		e := absToEv(a)
+		e["vss"] = "none"
+		if t == 0x40 && r.Intn(5) != 0 {
+			e["vss"] = []string{"a", "b", "c"}[r.Intn(3)]
+		}
+		objs = append(objs, e)
+	}
+	nsteps := 4 + r.Intn(22)
+	var steps [][2]interface{}
+	if ring {
+		// every object once in order (each new time takes a slot), then again: those whose slot was
+		// reused are no longer known, the recent ones still are
+		for k := 0; k < nobj; k++ {
+			steps = append(steps, [2]interface{}{"process", k})
 		}
 		for k := 0; k < nobj; k++ {
-			t := c10Types[r.Intn(len(c10Types))]
-			if r.Intn(3) == 0 {
-				t = []int{0x13, 0x14, 0x10, 0x50, 0x40}[r.Intn(5)]
-			}
-			a := absDesc{Type: t, Eid: 1 + r.Intn(2), HasPTS: r.Intn(12) != 0, PTS: ptsPool[r.Intn(len(ptsPool))], SegNum: 1, SegExp: 1 + r.Intn(2)}
-			if many {
-				a.PTS = uint64(1000 * (1 + r.Intn(16)))
-			}
-			if ring && r.Intn(4) != 0 {
-				a.PTS = uint64(1000 * (1 + k)) // mostly distinct times
-			}
-			if t == 0x34 || t == 0x36 {
-				a.HasSub = r.Intn(2) == 0
-				a.SubNum, a.SubExp = 1, 1+r.Intn(2)
-			}
-			e := absToEv(a)
-			e["vss"] = "none"
-			if t == 0x40 && r.Intn(5) != 0 {
-				e["vss"] = []string{"a", "b", "c"}[r.Intn(3)]
-			}
-			objs = append(objs, e)
+			steps = append(steps, [2]interface{}{"process", (k * 5) % nobj})
 		}
-		nsteps := 4 + r.Intn(22)
-		var steps [][2]interface{}
-		if ring {
-			// every object once in order (each new time takes a slot), then again: those whose slot was
-			// reused are no longer known, the recent ones still are
-			for k := 0; k < nobj; k++ {
-				steps = append(steps, [2]interface{}{"process", k})
+		nsteps = r.Intn(12)
+	}
+	for s := 0; s < nsteps; s++ {
+		k := r.Intn(nobj)
+		switch x := r.Intn(10); {
+		case x < 7:
+			steps = append(steps, [2]interface{}{"process", k})
+			if r.Intn(6) == 0 {
+				steps = append(steps, [2]interface{}{"process", k}) // twice in a row
 			}
-			for k := 0; k < nobj; k++ {
-				steps = append(steps, [2]interface{}{"process", (k * 5) % nobj})
-			}
-			nsteps = r.Intn(12)
+		case x < 9:
+			steps = append(steps, [2]interface{}{"close", k})
+		default:
+			steps = append(steps, [2]interface{}{"open", k})
 		}
-		for s := 0; s < nsteps; s++ {
-			k := r.Intn(nobj)
-			switch x := r.Intn(10); {
-			case x < 7:
-				steps = append(steps, [2]interface{}{"process", k})
-				if r.Intn(6) == 0 {
-					steps = append(steps, [2]interface{}{"process", k}) // twice in a row
-				}
-			case x < 9:
-				steps = append(steps, [2]interface{}{"close", k})
-			default:
-				steps = append(steps, [2]interface{}{"open", k})
-			}
-		}
-		emit(ops(objs, steps))
+	}
+	return c10Ops(r, objs, steps)
+}
+
+// GenRows: the fuzzer's bytes drive the random-history generator (structured fuzzing).
+func (c c10) GenRows(rows []Ev, tier string, seed int64, emit func([]Ev)) {
+	for _, row := range rows {
+		emit(c10History(rand.New(&byteSrc{b: GB(row["in"])}), GI(row["opi"]), c.ring))
 	}
 }
 
